@@ -610,6 +610,11 @@ func (f *slFn) bytesExpr(e ast.Expr) (string, int) {
 			}
 			f.fail("conversion %s", nodeText(f.g.imp.fset, e))
 		}
+		if selName(x.Fun) == "slices.Grow" && len(x.Args) == 2 {
+			// slices.Grow(s, n): the same bytes; the result may or may not share the backing array of s (kept in its class)
+			_ = f.natExpr(x.Args[1])
+			return f.bytesExpr(x.Args[0])
+		}
 		if id, ok := x.Fun.(*ast.Ident); ok {
 			switch id.Name {
 			case "make":
